@@ -427,6 +427,19 @@ def run_check(tier, seed):
         V.cov['model_variant_fx'] = fx
         V.cov['samples'] = [hists[0].lines, hists[len(hists) // 2].lines[:12],
                             'theorem numrecs_inv_partial (fx) (w0) (hI : Inv w0) (ops) (hg : GoodRun fx w0 ops) : ∃ w, run fx w0 ops = some w ∧ Inv w ∧ Mono w0 w']
+        # ---- API-level "mix" programs (checks/apigen.gen_mix_program): varn calls whose segments are listed in any order (the last
+        #      segment is not the one reaching the highest record), several nonblocking requests per wait, record variables;
+        #      record counts (every rank, after sync and after reopen) and all data against the abstract dataset specification
+        import apigen, apicmp
+        if os.path.exists(apicmp.APIDRV):
+            aexe = apicmp.build_apirun(tree, wd)
+            nmix = 80 if tier == 'thorough' else 24
+            mrng = SplitMix64(seed * 7907 + 3)
+            ml_, mt_, mix_fail, mn_ = apicmp.run_programs(
+                V, aexe, wd, ((apigen.gen_mix_program(mrng, 'c05_m%d.nc' % k_, n_, focus=('recvarn' if k_ % 2 == 0 else None)), n_) for k_ in range(nmix) for n_ in [mrng.choice([1, 2, 2, 3])]),
+                tier, 'C05:api-mix', 'record count after a varn / multi-request program differs from the dataset specification (every process must report 1 + the highest record written)', tagprefix='mix')
+            V.cov['evaluations'] += ml_
+            V.cov['mix_programs'] = dict(programs=mn_, result_lines=ml_, tags=mt_)
         if not V.violations:
             if tie_diffs:
                 V.broken_tie('correspondence stream rec: model and implementation differ', [list(map(str, t)) for t in tie_diffs[:10]])
